@@ -132,6 +132,17 @@ impl Word {
         self.init = NO_BITS;
     }
 }
+#[cfg(feature = "verif")]
+impl Word {
+    /// Verification hook: builds a word from raw data and initialization mask.
+    pub fn verif_from_parts(data: u16, init: u16) -> Self {
+        Self { data, init }
+    }
+    /// Verification hook: the raw initialization mask.
+    pub fn verif_init_mask(&self) -> u16 {
+        self.init
+    }
+}
 impl From<u16> for Word {
     /// Creates a fully initialized word.
     fn from(value: u16) -> Self {
@@ -455,6 +466,24 @@ impl MemArray {
 
     pub(super) fn as_slice_mut(&mut self) -> &mut [Word] {
         &mut *self.0
+    }
+}
+#[cfg(feature = "verif")]
+impl MemArray {
+    /// Verification hook: wraps an existing backing array.
+    pub fn verif_from_box(mem: Box<[Word; 1 << 16]>) -> Self {
+        Self(mem)
+    }
+    /// Verification hook: exposes [`MemArray::copy_obj_block`].
+    pub fn verif_copy_obj_block(&mut self, start: u16, data: &[Option<u16>]) {
+        self.copy_obj_block(start, data)
+    }
+}
+#[cfg(feature = "verif")]
+impl RegFile {
+    /// Verification hook: builds a register file from its words.
+    pub fn verif_from_words(words: [Word; Reg::REG_SIZE]) -> Self {
+        Self(words)
     }
 }
 impl std::ops::Index<u16> for MemArray {
